@@ -36,6 +36,9 @@ func calleeName(info *types.Info, call *ast.CallExpr) string {
 	if fn == nil {
 		return ""
 	}
+	if t := forwardOf[fn]; t != nil {
+		fn = t
+	}
 	return funcQualNameAny(fn)
 }
 
